@@ -17,137 +17,7 @@ import (
 	"github.com/lightninglabs/neutrino/headerfs"
 )
 
-// ---- slice-backed target stores with write-failure injection ----
-
-var errVpStore = errors.New("vp: injected store write failure")
-
-type vpWriteCtl struct {
-	calls  int
-	failAt int // the n-th WriteHeaders call (over both stores) fails; 0 = never
-}
-
-type vpBlockStore struct {
-	hdrs []wire.BlockHeader
-	ctl  *vpWriteCtl
-	log  []string
-}
-
-func (s *vpBlockStore) ChainTip() (*wire.BlockHeader, uint32, error) {
-	h := s.hdrs[len(s.hdrs)-1]
-	return &h, uint32(len(s.hdrs) - 1), nil
-}
-func (s *vpBlockStore) LatestBlockLocator() (blockchain.BlockLocator, error) {
-	return nil, errors.New("vp: not modelled")
-}
-func (s *vpBlockStore) FetchHeaderByHeight(height uint32) (*wire.BlockHeader, error) {
-	if int(height) >= len(s.hdrs) {
-		return nil, &headerfs.ErrHeaderNotFound{}
-	}
-	h := s.hdrs[height]
-	return &h, nil
-}
-func (s *vpBlockStore) FetchHeaderAncestors(n uint32, stop *chainhash.Hash) ([]wire.BlockHeader, uint32, error) {
-	return nil, 0, errors.New("vp: not modelled")
-}
-func (s *vpBlockStore) HeightFromHash(h *chainhash.Hash) (uint32, error) {
-	for i := range s.hdrs {
-		if s.hdrs[i].BlockHash() == *h {
-			return uint32(i), nil
-		}
-	}
-	return 0, errors.New("vp: hash not found")
-}
-func (s *vpBlockStore) FetchHeader(h *chainhash.Hash) (*wire.BlockHeader, uint32, error) {
-	i, err := s.HeightFromHash(h)
-	if err != nil {
-		return nil, 0, err
-	}
-	hd := s.hdrs[i]
-	return &hd, i, nil
-}
-func (s *vpBlockStore) WriteHeaders(hdrs ...headerfs.BlockHeader) error {
-	s.ctl.calls++
-	if s.ctl.failAt != 0 && s.ctl.calls == s.ctl.failAt {
-		return errVpStore
-	}
-	for _, h := range hdrs {
-		// the real store appends positionally: a height that is not the next
-		// position corrupts it; make that visible
-		vpAssert(int(h.Height) == len(s.hdrs), "block-store-written-at-next-height")
-		s.hdrs = append(s.hdrs, *h.BlockHeader)
-	}
-	s.log = append(s.log, "write")
-	return nil
-}
-func (s *vpBlockStore) RollbackBlockHeaders(n uint32) (*headerfs.BlockStamp, error) {
-	if n == 0 {
-		return &headerfs.BlockStamp{}, nil
-	}
-	if int(n) > len(s.hdrs)-1 {
-		return nil, errors.New("vp: cannot roll back past genesis")
-	}
-	s.hdrs = s.hdrs[:len(s.hdrs)-int(n)]
-	s.log = append(s.log, "rollback")
-	return &headerfs.BlockStamp{Height: int32(len(s.hdrs) - 1), Hash: s.hdrs[len(s.hdrs)-1].BlockHash()}, nil
-}
-func (s *vpBlockStore) RollbackLastBlock() (*headerfs.BlockStamp, error) {
-	return s.RollbackBlockHeaders(1)
-}
-
-type vpFilterStore struct {
-	hashes []chainhash.Hash // filter headers by height
-	tipBlk chainhash.Hash   // block hash recorded with the tip entry
-	ctl    *vpWriteCtl
-}
-
-func (s *vpFilterStore) ChainTip() (*chainhash.Hash, uint32, error) {
-	h := s.hashes[len(s.hashes)-1]
-	return &h, uint32(len(s.hashes) - 1), nil
-}
-func (s *vpFilterStore) FetchHeader(h *chainhash.Hash) (*chainhash.Hash, error) {
-	return nil, errors.New("vp: not modelled")
-}
-func (s *vpFilterStore) FetchHeaderAncestors(n uint32, stop *chainhash.Hash) ([]chainhash.Hash, uint32, error) {
-	return nil, 0, errors.New("vp: not modelled")
-}
-func (s *vpFilterStore) FetchHeaderByHeight(height uint32) (*chainhash.Hash, error) {
-	if int(height) >= len(s.hashes) {
-		return nil, &headerfs.ErrHeaderNotFound{}
-	}
-	h := s.hashes[height]
-	return &h, nil
-}
-func (s *vpFilterStore) WriteHeaders(hdrs ...headerfs.FilterHeader) error {
-	s.ctl.calls++
-	if s.ctl.failAt != 0 && s.ctl.calls == s.ctl.failAt {
-		return errVpStore
-	}
-	for _, h := range hdrs {
-		vpAssert(int(h.Height) == len(s.hashes), "filter-store-written-at-next-height")
-		s.hashes = append(s.hashes, h.FilterHash)
-	}
-	if len(hdrs) > 0 {
-		s.tipBlk = hdrs[len(hdrs)-1].HeaderHash
-	}
-	return nil
-}
-
-// usable: the real filter store finds its tip through the block index,
-// so the block hash recorded with the tip entry must be the hash of the
-// stored block header at the filter tip height.
-func (s *vpFilterStore) usable(bs *vpBlockStore, grew bool) bool {
-	if !grew {
-		return true
-	}
-	h := len(s.hashes) - 1
-	if h >= len(bs.hdrs) {
-		return false
-	}
-	return s.tipBlk == bs.hdrs[h].BlockHash()
-}
-func (s *vpFilterStore) RollbackLastBlock(newTip *chainhash.Hash) (*headerfs.BlockStamp, error) {
-	return nil, errors.New("vp: not modelled")
-}
+var _ = errors.New
 
 // ---- in-memory import source ----
 
